@@ -8,9 +8,9 @@ use nom::number::complete::double;
 use nom::IResult;
 
 // Constants representing time units in nanoseconds
-const SECOND: u64 = 1_000_000_000;
-const MILLISECOND: u64 = 1_000_000;
-const MICROSECOND: u64 = 1_000;
+const SECOND: u128 = 1_000_000_000;
+const MILLISECOND: u128 = 1_000_000;
+const MICROSECOND: u128 = 1_000;
 
 /// Parses a duration string into a [`Duration`]. Duration strings support the
 /// following grammar:
@@ -101,22 +101,11 @@ pub fn format_duration(d: &Duration) -> String {
     let buf = &mut [0u8; 32];
     let mut w = buf.len();
 
-    let mut neg = false;
-    let mut u = d
-        .num_nanoseconds()
-        .map(|n| {
-            if n < 0 {
-                neg = true;
-            }
-            n as u64
-        })
-        .unwrap_or_else(|| {
-            let s = d.num_seconds();
-            if s < 0 {
-                neg = true;
-            }
-            s as u64 * SECOND
-        });
+    // The magnitude in nanoseconds: chrono durations reach about 2^63 milliseconds, which
+    // does not fit in 64 bits once expressed in nanoseconds.
+    let total = d.num_seconds() as i128 * SECOND as i128 + d.subsec_nanos() as i128;
+    let neg = total < 0;
+    let mut u = total.unsigned_abs();
 
     if u < SECOND {
         // Special case: if duration is smaller than a second,
@@ -175,7 +164,7 @@ pub fn format_duration(d: &Duration) -> String {
     String::from_utf8_lossy(&buf[w..]).into_owned()
 }
 
-fn format_float(buf: &mut [u8], mut v: u64, prec: usize) -> (usize, u64) {
+fn format_float(buf: &mut [u8], mut v: u128, prec: usize) -> (usize, u128) {
     let mut w = buf.len();
     let mut print = false;
     for _ in 0..prec {
@@ -194,7 +183,7 @@ fn format_float(buf: &mut [u8], mut v: u64, prec: usize) -> (usize, u64) {
     (w, v)
 }
 
-fn format_int(buf: &mut [u8], mut v: u64) -> usize {
+fn format_int(buf: &mut [u8], mut v: u128) -> usize {
     let mut w = buf.len();
     if v == 0 {
         w -= 1;
